@@ -1,4 +1,5 @@
 import SfxModel.DriverArith
+import SfxModel.DriverWrap
 /-
   Main.lean — line-protocol driver.  stdin: the Rust harness' output, one `request => answer` per line.
   For every line: recompute the answer with the model (projected to the build profile given as the first
@@ -25,21 +26,25 @@ def bump (ops : List (String × Nat)) (op : String) : List (String × Nat) :=
   | [] => [(op, 1)]
   | (o, c) :: rest => if o == op then (o, c + 1) :: rest else (o, c) :: bump rest op
 
-def modelOf (L : Layout) (op : String) (args : List String) : Option (Outcome Val) :=
-  match args.mapM String.toInt? with
-  | some ints => DriverArith.model L (DriverArith.baseOp op) ints
+/-- model answer, already rendered for the profile (`none`: no model for this request) -/
+def modelOf (prof : Profile) (L : Layout) (op : String) (args : List String) : Option String :=
+  if op == "wprog" then (DriverWrap.run L prof args).map (·.1)
+  else match args.mapM String.toInt? with
+  | some ints => (DriverArith.model L (DriverArith.baseOp op) ints).map (Outcome.render prof)
   | none => none
 
-def specOf (L : Layout) (op : String) (args : List String) : Option (Outcome Val) :=
-  match args.mapM String.toInt? with
-  | some ints => DriverArith.spec L (DriverArith.baseOp op) ints
+/-- documented answer, rendered (`none`: unconstrained) -/
+def specOf (prof : Profile) (L : Layout) (op : String) (args : List String) : Option String :=
+  if op == "wprog" then (DriverWrap.run L prof args).map (·.2)
+  else match args.mapM String.toInt? with
+  | some ints => (DriverArith.spec L (DriverArith.baseOp op) ints).map (Outcome.render prof)
   | none => none
 
-def isSpecial (ans : String) : Bool := ans == "P" || ans == "N" || ans.endsWith ",1"
+def isSpecial (ans : String) : Bool := ans == "P" || ans == "N" || ans.endsWith ",1" || ans.endsWith ";P"
 
 def argsInRange (L : Layout) (op : String) (args : List String) : Bool :=
   -- operands of typed arithmetic requests are bit patterns of the layout (the driver rejects others)
-  if op.startsWith "h_div_rem_from" then true
+  if op.startsWith "h_div_rem_from" || op == "wprog" then true
   else args.all (fun a => match a.toInt? with | some i => decide (inRange L i) | none => true)
 
 partial def loop (prof : Profile) (h : IO.FS.Stream) (out : IO.FS.Stream) (st : Stats) : IO Stats := do
@@ -60,23 +65,21 @@ partial def loop (prof : Profile) (h : IO.FS.Stream) (out : IO.FS.Stream) (st : 
           loop prof h out { st with bad := st.bad + 1 }
         else
           let st := if isSpecial ans then { st with special := st.special + 1 } else st
-          let st := if ans == "P" then { st with panics := st.panics + 1 } else st
+          let st := if ans == "P" || ans.endsWith ";P" then { st with panics := st.panics + 1 } else st
           let st := if args.any (fun a => match a.toInt? with | some i => i.natAbs > 1 | none => true)
                     then { st with nontrivial := st.nontrivial + 1 } else st
-          let st ← match modelOf L op args with
+          let st ← match modelOf prof L op args with
             | none => do
                 out.putStrLn s!"NOMODEL {line}"
                 pure { st with nomodel := st.nomodel + 1 }
-            | some m =>
-                let ms := Outcome.render prof m
+            | some ms =>
                 if ms != ans then do
                   out.putStrLn s!"DIFF {line} model={ms}"
                   pure { st with diff := st.diff + 1 }
                 else pure st
-          let st ← match specOf L op args with
+          let st ← match specOf prof L op args with
             | none => pure { st with nospec := st.nospec + 1 }
-            | some sp =>
-                let ss := Outcome.render prof sp
+            | some ss =>
                 if ss != ans then do
                   out.putStrLn s!"SPEC {line} spec={ss}"
                   pure { st with spec := st.spec + 1 }
